@@ -1,7 +1,28 @@
 # C15 — Bloom filter: no false negatives in any representation; bitwise set algebra
 #
-# Mutations confirmed caught (scratch worktree, VERIF_REPO): see the list at the end of this comment block
-# (filled in after the mutation runs).
+# The model (coq/BloomDefs.v, [step] = wstep true) is the REPAIRED code: fixes/15_bloom_update_marks_memory_dirty.patch,
+# 15_bloom_qau_keeps_dirty.patch, 15_bloom_readonly_setops_refused.patch, 15_bloom_deserialize_capacity_64bit.patch.
+# Against a tree without these patches this check reports VIOLATION (false_negative / readonly_setop_not_refused /
+# restored_capacity_differs / transcript_mismatch) on the regression cases reg_* below.
+#
+# Mutations confirmed caught (scratch worktree with the four patches applied, VERIF_REPO=/tmp/wt_bloom, VERIF_SEED=1, quick):
+#   M1  internal_update does not write DIRTY_BITS_VALUE to wrapped memory (= patch A reverted)     false_negative
+#   M2  query_and_update stores cache+inc while is_dirty_ (= patch B reverted)                     false_negative
+#   M3  invert() without the read-only check (= part of patch D reverted)            readonly_setop_not_refused, false_negative
+#   M4  internal_update loop "i < num_hashes_" (one index bit not set)               false_negative, qau_prior_membership
+#   M5  union_with drops update_num_bits_set(bits_set)                               setop_count_inexact
+#   M6  is_compatible ignores the seed                                               incompatible_not_refused
+#   M7  serialize() writes num_bits_set_ instead of (is_dirty_ ? DIRTY : num_bits_set_)   transcript (image bytes), false negative after restore
+#   M8  query_and_update: value_exists |= value                                      qau_prior_membership
+#   M9  bit_array_ops::invert counts the bits before flipping                        setop_count_inexact
+#   M10 is_empty() ignores is_dirty_                                                 false_negative
+#   M11 reset() keeps the cached count                                               transcript (get_bits_used / is_empty)
+#   M12 bit_array_ops::intersect uses |=                                             intersect_not_and
+#   (M1, M2, M3 and M7 pass bloom_filter_test.)
+# Harmless rewrites confirmed NOT reported (exit 0):
+#   H1  internal_query tests the index bits in reverse order (i = num_hashes_ .. 1)
+#   H2  internal_query_and_update counts the newly set bits in a local and calls update_num_bits_set once after the loop
+#   H3  reset() zeroes the bit array before update_num_bits_set(0) (order of independent statements)
 import struct
 import vlib
 
@@ -19,17 +40,22 @@ RULE = ('operation scripts over several bloom_filter registers and harness-owned
         'with queries of all tracked items on all registers, counts and bit dumps; non-trivial = the case contains at least '
         'one insertion and one query, or a set operation, or a wrap/deserialize')
 TRUSTED = ['XXH64 model coq/XXHash64.v (checked against published vectors and values computed by /repo inside Coq, and '
-           'against the implementation through every update/query of this check)',
+           'against the implementation through every update/query of this check); the theorems hold for ANY hash function',
            'builder::suggest_num_filter_bits / suggest_num_hashes go through libm; their results are read from the '
            'implementation (E line) and passed to the model',
-           'ghost bookkeeping of the specification (which items must be reported by which view) is part of the model '
-           'file BloomDefs.v and is not itself the subject of a theorem beyond Properties_C15']
+           'the ghost bookkeeping of the protocol-level model (which items must be reported by which register / block after '
+           'copies, serialize, wraps, unions: BloomDefs.wstep fields e_must/b_must/epochs) feeds the oracle and is NOT the '
+           'subject of a theorem; the theorems are about one filter object and its views (BloomProofs.frun / view_of) and about '
+           'the byte-level serialize / deserialize / wrap functions, which are the same definitions wstep executes']
 ASSUMPTIONS = ['the false-positive-rate clause ("stays near the target") is statistical and NOT claimed',
                'images placed in memory blocks are whole images produced by the library (hand-corrupted or truncated images '
                'belong to the deserialization-robustness property, not to C15)',
                'num_hashes < 65535 (the uint16_t loop counter of internal_update never terminates for 65535)',
                'claims about a view of shared memory cover the items present when the view was created and those inserted '
-               'through that view; what another, older view reports about items inserted behind its back is not claimed']
+               'through that view; what another, older view reports about items inserted behind its back is not claimed '
+               '(two live writable views written alternately: known finding aliased_view_stale_count_written)',
+               'filters of 2^32 bits and more are exercised only EMPTY in the correspondence runs (512 MiB per filter); the '
+               'theorems cover every capacity the constructors accept (< 2^35)']
 
 # hazard codes of the model's ghost state (repaired code): the count information of the lineage became inconsistent through
 # a query_and_update by a view whose cached count was stale (two live writable views of one block written alternately: each
@@ -330,6 +356,12 @@ def regression_cases():
         [1, 1, 100, 3, 123], [6, 1] + u(5), [2, 101, 48], [14, 1, 101, 0], [16, 2, 101],
         [1, 3, 100, 3, 123], [6, 3] + u(77), [13, 2], [13, 3], [7, 2, 3], [13, 2], [11, 2], [12, 2], [13, 2], [9, 2], [13, 2], [11, 2],
         [13, 2], [13, 3], [8, 2, 3], [13, 2], [11, 2], [10, 2], [4, 2] + u(1), [6, 2] + u(1)]))
+    # a filter of 2^32 + 64 bits (512 MiB; a size the constructor accepts), EMPTY: serialize (24 bytes), deserialize / wrap:
+    # the capacity must survive (before fixes/15_bloom_deserialize_capacity_64bit.patch it came back as 64)
+    big = 2**32 + 64
+    cs.append(dict(id='reg_capacity_above_2_32', tags=['regression', 'serialize', 'deserialize', 'wrap'], ops=[
+        [1, 1, big, 3, 123], [12, 1], [2, 101, 64], [14, 1, 101, 0], [20, 101], [15, 2, 101, 0], [12, 2], [19, 2],
+        [15, 2, 101, 1], [12, 2], [19, 2], [16, 2, 101], [12, 2], [5, 2] + u(5)]))
     # two live writable views of one block written alternately (known finding aliased_view_stale_count_written)
     cs.append(dict(id='reg_aliased_writers', tags=['regression', 'caller_memory', 'writable_wrap', 'qau'], ops=[
         [2, 101, 48], [3, 1, 101, 100, 3, 123], [17, 2, 101], [6, 1] + u(5), [6, 2] + u(5), [5, 2] + u(5),
@@ -369,10 +401,29 @@ def oracle(case, irecs, mrecs):
         fails.append(dict(sig=sig, what=what, op_index=i))
     def R(i):
         return irecs[i]['R'] if 0 <= i < n else None
+    info_cap = {}      # register -> capacity reported by its latest info (12)
+    img_cap = {}       # block -> capacity of the filter whose image was serialized into it last
+    want_cap = {}      # register restored from a block -> capacity it must report
     for i in range(n):
         op = ops[i]; code = op[0]
         r = irecs[i]['R']; S = mrecs[i].get('S') or []
         mr = mrecs[i]['R']
+        # the serialized-and-restored filter is a view of the same state: same capacity (hence the same index function)
+        if code in (1, 3, 15, 16, 17, 18, 19, 21, 22):
+            info_cap.pop(op[1], None); want_cap.pop(op[1], None)
+        if code in (3, 22) and r != [-1]:
+            img_cap.pop(op[2], None)
+        if code == 12 and r != [-1] and len(r) >= 1:
+            info_cap[op[1]] = r[0]
+            if op[1] in want_cap and r[0] != want_cap[op[1]]:
+                fail('restored_capacity_differs', 'deserialize/wrap of a serialized image built a filter of capacity %d, the '
+                     'serialized filter had capacity %d' % (r[0], want_cap[op[1]]), i)
+        if code == 14:
+            img_cap.pop(op[2], None)
+            if r != [-1] and op[1] in info_cap:
+                img_cap[op[2]] = info_cap[op[1]]
+        if code in (15, 16, 17) and r != [-1] and op[2] in img_cap:
+            want_cap[op[1]] = img_cap[op[2]]
         if code == 5 and S and r != [-1]:
             must, haz, _allset = S
             if must and r == [0]:
@@ -436,6 +487,25 @@ def oracle(case, irecs, mrecs):
 FAMILIES = [dict(name='bloom', harness='drv_bloom.cpp', extract='Extract_bloom.v', model='model_bloom', gen=gen, oracle=oracle)]
 
 MANIFEST = dict(
-    level_text=('Theorems (coq/Properties_C15.v) about the executable model of bloom_filter_impl.hpp for ANY hash function.'),
-    level_note=('Trusted: Coq kernel; hand-written model validated only by the correspondence runs; XXH64 model; FPR clause statistical, not claimed.'),
+    level_text=('Theorems (coq/Properties_C15.v, axiom-free) about the executable model of bloom_filter_impl.hpp + bit_array_ops.hpp, for ANY hash '
+                'function and ANY operation history of a filter object (update, query_and_update, union with any bit array, intersect, invert, '
+                'reset, get_bits_used; owned or in caller memory with the count stored at byte 24 modelled): an inserted item with no '
+                'intersect/invert/reset after it is reported by the filter, its copy, deserialize(serialize), read-only and writable wraps of '
+                'the serialized bytes, read-only and writable wraps / deserialize of the caller memory at that time, and by any compatible '
+                'filter after union_with and any further monotone history (C15_no_false_negative_in_any_view; '
+                'C15_no_false_negative_through_bytes goes through the byte-level serialize / parse functions); the count stored in caller '
+                'memory is always the dirty marker or exact; get_bits_used = popcount after any history; query_and_update = prior membership; '
+                'union/intersect/invert = OR/AND/NOT-within-capacity with count = popcount written through; byte layout round trip '
+                '(deserialize/wrap of serialize restores configuration, count/dirty marker and every bit, empty and non-empty images, all '
+                'capacities < 2^35); refusals (incompatible operands, every write through a read-only view, constructor limits, writable wrap '
+                'of an empty image); capacity rounding. The model is the REPAIRED code (fixes/15_*.patch); the four defects of the code '
+                'before the repairs are theorems in coq/Regression_bloom.v (*_refuted). Tie to the code on every run: model (extracted) and '
+                'bloom_filter (ASan/UBSan) execute the same generated scripts; query results, counts, bit dumps, info, refusals, serialized '
+                'sizes and the BYTES of every memory block (serialized images, wrapped memory) are compared exactly, and the property '
+                'predicates are evaluated on the implementation outputs.'),
+    level_note=('Trusted: Coq kernel; hand-written model validated only by the correspondence runs; XXH64 model (theorems are for any hash). '
+                'NOT proved: the ghost bookkeeping of the multi-register protocol model (aliasing of several views of one block, stale views) — '
+                'the theorems are per filter object and its views; interleaved writes through two live writable views of one block violate the '
+                'property in the real code (known finding aliased_view_stale_count_written, needs a design decision). FPR clause statistical, '
+                'not claimed. Filters >= 2^32 bits run only empty in the correspondence.'),
     design_ref='DESIGN.md section 5 C15')
